@@ -56,6 +56,7 @@ pub fn flow_models<C: StateCheck + Copy>(ctx: &Ctx, shared: &Arc<Shared>, c: C, 
         let n = if ctx.quick() { if spec.heavy_oracle { 12 } else { 14 } } else { 16 };
         explore(ctx, &format!("COMBO: complete 12-step buildings, {n} subsystems absent/present (designed production/use ratios, ties, five-digit values)"), Layered { slots: alpha::combo_slots(n), bases: alpha::bases(false) }, c, shared.clone());
     }
+    explore(ctx, "RATIO: use 10 kWh under PV of 0.01 .. 10 000 kWh x cogenerator {3 sizes x gas, biomass} x non-EPB use {0, 5, 500}", Layered { slots: alpha::ratio_slots(), bases: alpha::bases(false) }, c, shared.clone());
     explore(ctx, "LONG: complete buildings with 13, 24, 31, 52, 365 and 8760 steps", Wide { alphabet: vec![], bases: alpha::long_bases(), max_add: 0, repeat: false }, c, shared.clone());
     if ctx.quick() && spec.heavy_oracle && spec.quick_depth >= 3 {
         // oracles that cost milliseconds per state: full vector set one level less deep, reduced vector set at full depth
